@@ -27,6 +27,8 @@ RULE = ("yield points: loads/stores of __coords/__precompute of shared point obj
         "hashing of (cells, per-thread read history); key level: all pairs of {precompute, precompute(lazy), verify_digest, "
         "to_string (raw, compressed), point.x, point*k, pickle, sign_digest (on the shared curve generator), sign_digest_deterministic with two different digests (ONE shared SigningKey)} on one shared key pair (the point object swapped in by precompute becomes "
         "a shared object when published); 3 threads with <= 2 preemptions: 12 delicate triples (quick), 160 random triples "
+        "(thorough); threads running TWO operations each (`a+b`; sequential values = every merge of the two sequences): 15 "
+        "point-level pairs x 3 variants + 5 key-level pairs (quick), + all pairs of 12 two-operation threads on both curves "
         "(thorough); every modelled pair is also replayed on the Lean model step by step.  Counting: `evaluations` = traces "
         "replayed on the model; a case is DISTINCT by its canonical form (curve, initial objects, operations, choice "
         "list = the driver line), counted with a set (`distinct_cases`); a case is TRIVIAL when every thread's steps are "
@@ -497,6 +499,18 @@ def key_model_token(scn, name):
             "kpre": "key_precompute:0:2:0", "kprel": "key_precompute:0:2:1"}.get(name)
 
 
+# two operations per thread (`a+b`: a, then b, in one thread)
+SEQ_PAIRS = [("scale+x", "mul+eq"), ("x+scale", "scale+y"), ("to_affine+x", "mul+y"), ("mul+mul", "mul+to_affine"),
+             ("scale+eq", "add+scale"), ("mul_add+x", "scale+mul_add"), ("double+scale", "to_affine+neg"),
+             ("eq+to_affine", "scale+eq"), ("mul+scale", "x+mul"), ("add+add", "scale+y"),
+             ("mul_add+mul_add1", "mul_add_neg11+scale"), ("y+x", "scale+scale"), ("x+x", "to_affine+to_affine"),
+             ("mul+x", "mul+x"), ("selfadd+scale", "ne+mul")]
+_SEQ_THREADS = ["scale+x", "x+scale", "mul+eq", "to_affine+y", "mul+mul", "add+scale", "mul_add+x", "double+to_affine",
+                "eq+mul", "rmul+neg", "y+mul_add_self", "scale+mul_add_neg21"]
+SEQ_PAIRS_THOROUGH = [(a, b) for i, a in enumerate(_SEQ_THREADS) for b in _SEQ_THREADS[i:] if (a, b) not in SEQ_PAIRS]
+KEY_SEQ_PAIRS = [("kpre+kv", "kv+kraw"), ("kprel+kraw", "kv+kcomp"), ("ksn+kv", "kv+ksn"), ("kraw+kpre", "kcomp+kv"),
+                 ("kv+kv_bad", "kprel+kv")]
+
 KEY_MODEL_OPS = ["kv", "kv_bad", "ksn", "kraw", "kcomp", "kpre", "kprel"]
 
 
@@ -612,6 +626,8 @@ def raw_result(res, objs, err):
     from ecdsa import ellipticcurve as E
     if err is not None:
         return "err " + common.errname(err)
+    if isinstance(res, Multi):
+        return "+".join(raw_result(r, objs, e) for r, e in res)
     for k, o in enumerate(objs):
         if res is o:
             return "o%d" % k
@@ -666,13 +682,7 @@ class Exec(Run):
         self.ids = {id(o): k for k, o in enumerate(self.objs)}
         self.vk = getattr(scn, "vk", None)
         self._xobjs = self.shared_extra()
-        if self.vk is not None:
-            kops = key_operations(scn)
-            vk = self.vk
-            self.fns = [(lambda o, f=kops[n]: f(o, vk)) for n in opnames]
-        else:
-            ops = operations(scn.toy)
-            self.fns = [ops[n][0] for n in opnames]
+        self.fns = [thread_fn(scn, n) for n in opnames]
         self.sched = None
         self.reads = [[] for _ in opnames]     # per thread: what it has read so far (digest)
         self.heaps = []
@@ -762,25 +772,74 @@ def good_values(scn):
     return good
 
 
+class Multi(list):
+    """result of a thread that runs several operations: [(result, exception)] in order"""
+
+
+def single_ops(scn):
+    """name -> callable(objs) for the single operations of a scenario"""
+    if isinstance(scn, KeyScenario):
+        kops = key_operations(scn)
+        return {n: (lambda o, f=f: f(o, scn.vk)) for n, f in kops.items()}
+    return {n: f for n, (f, _) in operations(scn.toy).items()}
+
+
+def thread_fn(scn, name):
+    """the function a thread runs: one operation, or several (`a+b`) one after the other — every one is run, an exception
+    of one does not stop the thread; the result is then a Multi"""
+    ops = single_ops(scn)
+    parts = name.split("+")
+    if len(parts) == 1:
+        return ops[name]
+
+    def f(o):
+        out = Multi()
+        for p in parts:
+            try:
+                out.append((ops[p](o), None))
+            except Exception as ex:  # noqa
+                out.append((None, ex))
+        return out
+    return f
+
+
+def value_parts(r, e, objs):
+    """per operation of the thread: its result as a value ("self" for a shared object returned itself)"""
+    def one(r, e):
+        return "self" if (e is None and any(r is o for o in objs)) else value_result(r, objs, e)
+    if isinstance(r, Multi):
+        return [one(a, b) for a, b in r]
+    return [one(r, e)]
+
+
+def merges(lists):
+    """all interleavings of the lists that keep the order inside every list"""
+    if all(not l for l in lists):
+        yield []
+        return
+    for i, l in enumerate(lists):
+        if l:
+            for rest in merges(lists[:i] + [l[1:]] + lists[i + 1:]):
+                yield [l[0]] + rest
+
+
 def sequential(scn, opnames):
-    """value results of the operations run one after another, in every order -> per operation the set of acceptable values"""
-    iskey = isinstance(scn, KeyScenario)
-    ops = None if iskey else operations(scn.toy)
-    acc = [set() for _ in opnames]
+    """value results of the operations run one after another, in every order (for threads with several operations: every
+    merge of the threads' sequences) -> per thread, per operation, the set of acceptable values"""
+    parts = [n.split("+") for n in opnames]
+    acc = [[set() for _ in ps] for ps in parts]
     install()
-    for order in itertools.permutations(range(len(opnames))):
+    for order in merges([[(i, k) for k in range(len(ps))] for i, ps in enumerate(parts)]):
         reset_shared()
         objs = scn.make()
-        kops = key_operations(scn) if iskey else None
+        ops = single_ops(scn)
         Run.cur = Prof(scn, objs)
-        for i in order:
+        for i, k in order:
             try:
-                r, e = (kops[opnames[i]](objs, scn.vk) if iskey else ops[opnames[i]][0](objs)), None
+                r, e = ops[parts[i][k]](objs), None
             except Exception as ex:  # noqa
                 r, e = None, ex
-            finally:
-                pass
-            acc[i].add(value_result(r, objs, e) if not (e is None and any(r is o for o in objs)) else "self")
+            acc[i][k].add(value_parts(r, e, objs)[0])
         Run.cur = None
     return acc
 
@@ -789,18 +848,17 @@ def recheck_sequential(ex, acc):
     """after a complete interleaving: every operation, run once more ALONE on the objects as the threads left them, must
     still return its sequential value (a concurrent run must not leave a shared object in a state no sequential run
     produces, even when every concurrent result was right)"""
-    iskey = ex.vk is not None
-    ops = None if iskey else operations(ex.scn.toy)
-    kops = key_operations(ex.scn) if iskey else None
+    ops = single_ops(ex.scn)
     for i, n in enumerate(ex.opnames):
-        try:
-            r, e = (kops[n](ex.objs, ex.vk) if iskey else ops[n][0](ex.objs)), None
-        except Exception as x:  # noqa
-            r, e = None, x
-        v = "self" if (e is None and any(r is o for o in ex.objs)) else value_result(r, ex.objs, e)
-        if v not in acc[i]:
-            return "after the threads finished, operation %d (%s) run alone returns %s; sequentially it returns %s" % (
-                i, n, v, sorted(acc[i]))
+        for k, pn in enumerate(n.split("+")):
+            try:
+                r, e = ops[pn](ex.objs), None
+            except Exception as x:  # noqa
+                r, e = None, x
+            v = value_parts(r, e, ex.objs)[0]
+            if v not in acc[i][k]:
+                return "after the threads finished, operation %d.%d (%s) run alone returns %s; sequentially it returns %s" % (
+                    i, k, pn, v, sorted(acc[i][k]))
     return None
 
 
@@ -810,10 +868,11 @@ def check_results(ex, acc):
     for i in range(len(ex.fns)):
         if not s.completed[i]:
             continue
-        r, e = s.result[i], s.error[i]
-        v = "self" if (e is None and any(r is o for o in ex.objs)) else value_result(r, ex.objs, e)
-        if v not in acc[i]:
-            return "operation %d (%s) returned %s; sequentially it returns %s" % (i, ex.opnames[i], v, sorted(acc[i]))
+        vs = value_parts(s.result[i], s.error[i], ex.objs)
+        for k, v in enumerate(vs):
+            if v not in acc[i][k]:
+                return "operation %d.%d (%s) returned %s; sequentially it returns %s" % (
+                    i, k, ex.opnames[i].split("+")[k], v, sorted(acc[i][k]))
     return None
 
 
@@ -1001,6 +1060,13 @@ def _all_results(ctx):
         for i, a in enumerate(KEY_OPS):
             for b in KEY_OPS[i:]:
                 tasks.append((ti, "key", (a, b), 400 if ctx.quick else 3000, None, False))
+    # threads that run TWO operations each (the second one meets what the first one — or the other thread — left behind)
+    for ti in toys:
+        for (a, b) in (SEQ_PAIRS if ctx.quick else SEQ_PAIRS + SEQ_PAIRS_THOROUGH):
+            for variant in VARIANTS:
+                tasks.append((ti, variant, (a, b), 600 if ctx.quick else 3000, None, True))
+        for (a, b) in KEY_SEQ_PAIRS:
+            tasks.append((ti, "key", (a, b), 600 if ctx.quick else 3000, None, True))
     # the most delicate triples (a rescaling / a lazy table construction racing with two readers), 3 threads, <= 2 preemptions
     DELICATE = [("x", "scale", "to_affine"), ("scale", "scale", "eq"), ("mul", "mul", "getstate"), ("mul", "to_affine", "x"),
                 ("add", "scale", "scale"), ("mul_add", "scale", "mul"), ("mul", "mul", "mul"), ("eq", "to_affine", "double"),
@@ -1049,13 +1115,14 @@ def correspond(ctx):
         if variant == "key":
             kscn = KeyScenario(TOYS[ti])
             kscn.make()
-            toks = [key_model_token(kscn, n) for n in opnames]
+            toks = ["+".join(key_model_token(kscn, pn) for pn in n.split("+")) for n in opnames]
             for (choices, heaps, raws) in o["traces"]:
                 lines.append("thr_trace_k %s %s 0 %s %s" % (kscn.curve_tokens(), kscn.obj_tokens(), "|".join(toks),
                                                             ",".join(map(str, choices)) if choices else "-"))
                 meta.append((o["arg"], choices, "ok " + ";".join(heaps[:len(choices) + 1]) + " # " + "|".join(raws)))
             continue
-        toks = [ops[n][1] for n in opnames]
+        toks = [None if any(ops[pn][1] is None for pn in n.split("+")) else "+".join(ops[pn][1] for pn in n.split("+"))
+                for n in opnames]
         if any(t is None for t in toks):
             ctx.hist("model.not_modelled", "+".join(opnames), len(o["traces"]))
             continue
